@@ -212,6 +212,7 @@ def r10_s(ctx):
     """the escape carry of the string scanners behind the unchecked walkers and the container skipper (shared with C13)"""
     from . import c13
     ctx.include(c13.r13_6, "R10.S")
+    ctx.include(c13.r13_6c, "R10.S")
 
 
 RULES = [("R10.1", r10_1), ("R10.2", r10_2), ("R10.3", r10_3), ("R10.4", r10_4), ("R10.5", r10_5), ("R10.S", r10_s)]
